@@ -2,9 +2,10 @@
    (coq/Gen/*.v, harness/translate.py) compute exactly what the hand-written models of
    Model/Intervals.v compute, and the C17 theorems hold of the regenerated programs themselves. *)
 From Coq Require Import String.
-From SV Require Import Lang.MiniPy Gen.Diff Gen.FindBreakI Gen.FcIn.
-From SV Require Import Model.Intervals Spec.IntervalDefs Proof.IntervalsContain.
+From SV Require Import Lang.MiniPy Gen.Diff Gen.FindBreakI Gen.FcIn Gen.OverlapIndices Gen.TouchingWindows.
+From SV Require Import Model.Intervals Spec.IntervalDefs Proof.IntervalsContain Proof.IntervalsTouch.
 From SV Require Import Proof.RefineDiff Proof.RefineFindBreakI Proof.RefineFcIn Proof.RefineC17.
+From SV Require Import Proof.RefineOverlapIndices Proof.RefineTouchingWindows Proof.RefineC17b.
 
 (* ---- strax.processing.general.diff ---- *)
 
@@ -67,3 +68,42 @@ Theorem GenTie_fc_in_exact : forall fuel things cs,
     lookup e fc_result_name = Some (VInts (map (fc_spec_strict cs) things)).
 Proof. exact fc_in_prog_exact. Qed.
 Print Assumptions GenTie_fc_in_exact.
+
+(* ---- strax.processing.general.overlap_indices ---- *)
+
+Theorem GenTie_overlap_indices : forall fuel a1 na b1 nb,
+  run fuel overlap_indices_prog [VInt a1; VInt na; VInt b1; VInt nb] = embed_oi (overlap_indices a1 na b1 nb).
+Proof. exact overlap_indices_refines. Qed.
+Print Assumptions GenTie_overlap_indices.
+
+Theorem GenTie_overlap_indices_spec : forall fuel a1 na b1 nb,
+  0 <= na -> 0 <= nb ->
+  run fuel overlap_indices_prog [VInt a1; VInt na; VInt b1; VInt nb] = embed_oi (Ok (oi_spec a1 na b1 nb)).
+Proof. exact overlap_indices_prog_spec. Qed.
+Print Assumptions GenTie_overlap_indices_spec.
+
+Theorem GenTie_overlap_indices_rejects_negative : forall fuel a1 na b1 nb,
+  na < 0 \/ nb < 0 ->
+  run fuel overlap_indices_prog [VInt a1; VInt na; VInt b1; VInt nb] = ORaise "ValueError".
+Proof. exact overlap_indices_prog_rejects_negative. Qed.
+Print Assumptions GenTie_overlap_indices_rejects_negative.
+
+(* ---- strax.processing.general._touching_windows ---- *)
+
+Theorem GenTie_touching_windows : forall fuel things cs w,
+  (length things < fuel)%nat ->
+  run fuel touching_windows_prog
+      [VInts (map rt things); VInts (map re things); VInts (map rt cs); VInts (map re cs); VInt w;
+       VStr mergesort_name]
+  = embed_tw (touching_windows_core things cs w 0).
+Proof. exact touching_windows_refines. Qed.
+Print Assumptions GenTie_touching_windows.
+
+Theorem GenTie_touching_windows_closed : forall fuel things cs w,
+  sorted cs -> (length things < fuel)%nat ->
+  run fuel touching_windows_prog
+      [VInts (map rt things); VInts (map re things); VInts (map rt cs); VInts (map re cs); VInt w;
+       VStr mergesort_name]
+  = OReturn (VMat (mat_of (map (fun c => (Lidx w things c, Ridx w things (re c))) cs))).
+Proof. exact touching_windows_prog_closed. Qed.
+Print Assumptions GenTie_touching_windows_closed.
